@@ -30,6 +30,11 @@ func Events(d *lref.DAG) ([]*tdag.TestEvent, map[hash.Event]int) {
 	byID := map[hash.Event]int{}
 	for i := range d.Events {
 		evs[i] = MakeEvent(d, i, evs, d.Events[i].Frame)
+		if j, dup := byID[evs[i].ID()]; dup {
+			// a generator produced the same event twice (same creator, seq, frame, parents, no salt): that is one
+			// event, not a fork; judging such a "DAG" would be a false alarm of the generator
+			panic(fmt.Sprintf("ENGINE-ERROR: generated DAG contains the same event twice (e%d, e%d): %s", j, i, d.String()))
+		}
 		byID[evs[i].ID()] = i
 	}
 	return evs, byID
